@@ -752,6 +752,21 @@ func (env *specEnv) call(t *ast.CallExpr) SVal {
 			specErr("dyntype: unknown type")
 		}
 		return SVal{V: Scalar{T: c.Eq(iv.Typ, c.Const(TypW, uint64(env.e.typeID(ty))))}, T: boolT}
+	case "boxed":
+		// boxed(x, T): the value of dynamic type T held by interface value x (meaningful when dyntype(x, T))
+		v := env.eval(t.Args[0])
+		iv, ok := v.V.(Iface)
+		if !ok {
+			specErr("boxed of non-interface")
+		}
+		ty := env.typeOfExpr(t.Args[1])
+		if ty == nil {
+			specErr("boxed: unknown type")
+		}
+		if isPointerShaped(ty) {
+			return SVal{V: iv.P, T: ty}
+		}
+		return SVal{V: c.Load(env.heap, iv.P, 0, ty), T: ty}
 	case "window":
 		// window(p, n): the n bytes at pointer p are valid memory. Assumed: recorded as an extent;
 		// proved: must lie within memory known to be valid.
